@@ -159,10 +159,13 @@ impl OrphanPool {
     }
 
     pub fn find_by_previous(&self, tx: &TransactionView) -> Vec<&ProposalShortId> {
+        // an orphan spending several outputs of `tx` is indexed under each of them: list it once
+        let mut seen = HashSet::new();
         tx.output_pts()
             .iter()
             .filter_map(|out_point| self.by_out_point.get(out_point))
             .flatten()
+            .filter(|id| seen.insert(*id))
             .collect::<Vec<_>>()
     }
 }
